@@ -861,4 +861,16 @@ theorem regOK_step {name : Asset → String} {w w' : World} {op : Op} {out : Out
         · cases h2
       · cases h2
 
+/-- the LP token a successful creation instantiates: zero supply, minted only by the new pair, with the decimals the
+creator asked for (6 by default) — so a later pair over this token records exactly those (`assetDecimals`) -/
+theorem create_lp_token {w w' : World} {s : Nat} {a0 a1 : Asset} {req : Requirements} {comm lpDec : Option Nat}
+    {np nl : Nat} (h : facCreatePair w s a0 a1 req comm lpDec np nl = .ok w') :
+    ∃ T, w'.tok nl = some T ∧ T.decimals = lpDec.getD 6 ∧ T.supply = 0 ∧ T.minter = some np ∧
+      assetDecimals w' (.token nl) = .ok (lpDec.getD 6) := by
+  obtain ⟨_, _, _, d0, d1, _, _, _, rfl⟩ := facCreatePair_inv h
+  refine ⟨{ bal := fun _ => 0, allow := fun _ _ => none, supply := 0, minter := some np, decimals := lpDec.getD 6 },
+    ?_, rfl, rfl, rfl, ?_⟩
+  · simp
+  · simp [assetDecimals]
+
 end Halo.RegOKP
